@@ -17,9 +17,17 @@ type monitor struct {
 	maps   map[*smap]string
 	writes []string
 	seenW  map[string]bool
+	// writes made while a write lock is held, inside sync.Once.Do, or by a
+	// sync / atomic primitive itself: ordered by that synchronisation, so not
+	// part of what vMonitorStop reports (kept for the evidence file)
+	syncWrites []string
 }
 
 func (m *monitor) note(fr *frame, what string, pos token.Pos) {
+	m.noteS(fr, what, pos, false)
+}
+
+func (m *monitor) noteS(fr *frame, what string, pos token.Pos, bySyncPrimitive bool) {
 	where := fr.fn.String()
 	if pos.IsValid() {
 		p := fr.i.prog.Fset.Position(pos)
@@ -28,6 +36,11 @@ func (m *monitor) note(fr *frame, what string, pos token.Pos) {
 	s := what + " @ " + where
 	if !m.seenW[s] {
 		m.seenW[s] = true
+		if bySyncPrimitive || fr.i.ps.wlock > 0 {
+			m.syncWrites = append(m.syncWrites, s)
+			fr.i.ps.events = append(fr.i.ps.events, "sync:write-under-synchronisation")
+			return
+		}
 		m.writes = append(m.writes, s)
 	}
 }
@@ -203,6 +216,7 @@ func intrMonitorStop(fr *frame, args []value) value {
 // onStore2 records a write performed by a modelled library call on the cell.
 func (m *monitor) onStore2(fr *frame, addr *value, what string) {
 	if d, ok := m.cells[addr]; ok {
-		m.note(fr, what+" write to pre-existing cell "+d, token.NoPos)
+		bySync := what == "sync.Once" || what == "sync.Map" || what == "atomic.Value" || what == "atomic"
+		m.noteS(fr, what+" write to pre-existing cell "+d, token.NoPos, bySync)
 	}
 }
